@@ -15,7 +15,8 @@ from wcmatch import wcmatch as W
 
 ROOT = tempfile.mkdtemp(prefix='wcverif_c15_', dir=os.environ.get('WCVERIF_SCRATCH') or None)
 atexit.register(shutil.rmtree, ROOT, True)
-for rel in ('a.txt', 'b.log', 'c.txt', '.h.txt', 'sub/d.txt', 'sub/e.log', 'sub/f.txt', 'sub2/g.txt', 'sub2/deep/i.log', 'sub2/deep/j.txt'):
+for rel in ('a.txt', 'b.log', 'c.txt', '.h.txt', 'sub/d.txt', 'sub/e.log', 'sub/f.txt', 'sub2/g.txt', 'sub2/deep/i.log', 'sub2/deep/j.txt',
+            'only/dirs/k.txt', 'only/more/l.log'):            # `only` holds nothing but folders
     p = os.path.join(ROOT, rel)
     os.makedirs(os.path.dirname(p), exist_ok=True)
     open(p, 'w').close()
@@ -35,16 +36,20 @@ class K(W.WcMatch):
         self.resets = 0
         self.kill_at = None    # (hook, name) where kill() was issued
         self.after_kill = []   # hook calls after the kill
+        self.after_kill_bases = []
+        self.kill_base = None
 
-    def _tick(self, hook, name):
+    def _tick(self, hook, name, base=None):
         if self.kill_at is not None:
             self.after_kill.append((hook, name))
+            self.after_kill_bases.append(base)
         self.log.append((hook, name))
         here = self.n
         self.n += 1
         if here == self.k:
             self.kill()
             self.kill_at = (hook, name)
+            self.kill_base = base
         if here == self.e:
             raise Boom(name)
 
@@ -55,25 +60,27 @@ class K(W.WcMatch):
         self.log = []
         self.kill_at = None
         self.after_kill = []
+        self.after_kill_bases = []
+        self.kill_base = None
 
     def on_validate_directory(self, base, name):
-        self._tick('vd', name)
+        self._tick('vd', name, base)
         return True
 
     def on_validate_file(self, base, name):
-        self._tick('vf', name)
+        self._tick('vf', name, base)
         return name != 'c.txt'            # one matching file is vetoed by the hook (-> skipped)
 
     def on_match(self, base, name):
-        self._tick('m', name)
+        self._tick('m', name, base)
         return ('m', name)
 
     def on_skip(self, base, name):
-        self._tick('s', name)
+        self._tick('s', name, base)
         return ('s', name) if name.startswith('e') else None     # most skips return nothing (nothing is yielded for them)
 
     def on_error(self, base, name):
-        self._tick('err', name)
+        self._tick('err', name, base)
         return ('err', name)
 
     def is_aborted(self):
@@ -110,7 +117,7 @@ def _routing_ok(w, raised_name=None):
 def kill_from_hook(k: int) -> bool:
     """
     kill() issued from the k-th hook invocation.
-    pre: -1 <= k <= 34
+    pre: -1 <= k <= 40
     post: _
     """
     w = K(ROOT, '*.txt', None, FLAGS, k=k)
@@ -123,7 +130,8 @@ def kill_from_hook(k: int) -> bool:
         hook, name = w.kill_at
         later_files = [n for h, n in w.after_kill if h in ('vf', 'm', 's', 'err') and n != name]
         if hook == 'vd':
-            ok = ok and len(set(later_files)) <= 1                # reading: at most one file follows a kill from a directory hook
+            # reading: after a kill from a directory hook at most one file *of the directory being scanned* follows
+            ok = ok and len(set(later_files)) <= 1 and all(b == w.kill_base for b in w.after_kill_bases)
         else:
             ok = ok and later_files == []                         # nothing beyond the file being processed
         ok = ok and not any(h == 'vd' for h, n in w.after_kill if (h, n) != w.kill_at)
@@ -140,7 +148,7 @@ def kill_from_hook(k: int) -> bool:
 def kill_between_polls(j: int) -> bool:
     """
     The abort flag flips (kill from another thread) immediately before the j-th is_aborted() poll.
-    pre: -1 <= j <= 40
+    pre: -1 <= j <= 50
     post: _
     """
     w = K(ROOT, '*.txt', None, FLAGS, j=j)
@@ -162,7 +170,7 @@ def kill_between_polls(j: int) -> bool:
 def hook_raises(e: int) -> bool:
     """
     The e-th hook invocation raises: the file goes to on_error (value passed through) and is counted as skipped; the walk goes on.
-    pre: -1 <= e <= 34
+    pre: -1 <= e <= 40
     post: _
     """
     w = K(ROOT, '*.txt', None, FLAGS, e=e)
